@@ -416,6 +416,19 @@ static void checkCase(verif::Run& run, const Variant& v, const std::vector<LD>& 
         if (!coupledTranslation(v.kind)) fitres("setQToFitTranslation-reproduces-translation", e3);
         else run.count(std::string("unspecified:setQToFitTranslation(coupled):") + mb::kindName(v.kind) + (v.dir ? "/rev" : "/fwd") + (e3 <= TOL ? ":reproduced" : ":not-reproduced"));
     }
+    if (!coupledTranslation(v.kind)) {
+        // the same requests issued from non-default starting coordinates (histories of two fit calls): the translation fit must
+        // reproduce the requested offset whatever the current orientation is, and the earlier rotation fit must survive it
+        // where translation is an independent part of the motion
+        State t4 = B.s; mobod.setQToFitRotation(t4, target.R()); mobod.setQToFitTranslation(t4, target.p());
+        const XF X4 = poseAfter(t4);
+        fitres("setQToFitRotation-then-Translation-reproduces-translation", poseErr(X4, XtD, false, true));
+        fitres("setQToFitRotation-then-Translation-keeps-rotation", poseErr(X4, XtD, true, false));
+        State t5 = s; mobod.setQToFitTranslation(t5, target.p());     // from the lattice point's own q (already at the target pose when documented)
+        fitres("setQToFitTranslation-from-current-q-reproduces-translation", poseErr(poseAfter(t5), XtD, false, true));
+        State t6 = B.s; mobod.setQToFitTranslation(t6, target.p()); mobod.setQToFitRotation(t6, target.R());
+        fitres("setQToFitTranslation-then-Rotation-reproduces-rotation", poseErr(poseAfter(t6), XtD, true, false));
+    }
     for (size_t k = 1; k < us.size(); ++k) {     // velocity targets for every basis u* and the generic u*
         SV Vt = VlibAll[k];
         if (docKind[k] == 1) Vt = v.dir ? revV(Xdoc, VdocAll[k]) : VdocAll[k];      // reversed: V_FM = reverse of (X_MF, V_MF) = (documented pose, documented velocity)
